@@ -77,9 +77,12 @@ def gen_aux(rnd, gt, node_uuids, n):
                 ("mapping", [("UUID", []), ("uint64_t", [])]),
                 ("tuple", [("UUID", []), ("Offset", []), ("string", [])]),
             ])
+        elif k < 0.45:
+            t, v = auxgen.gen_long(rnd, pool)
         else:
             t = auxgen.gen_type(rnd, rnd.choice([0, 1, 2, 3]))
-        v = auxgen.gen_value(rnd, t, pool)
+        if k < 0.35 or k >= 0.45:
+            v = auxgen.gen_value(rnd, t, pool)
         out[key] = {"type": reftypes.show(t),
                     "pv": codecmon.to_json(refcodec.neutral(v, t))}
     return out
@@ -197,6 +200,12 @@ def gen_spec(rnd, gt, profile="mixed"):
         for m in spec["modules"]:
             if rnd.random() < 0.2:
                 m["entry_point"] = rnd.choice(allcode)
+        if rnd.random() < 0.25:
+            # several modules share one entry block (of any module)
+            shared = rnd.choice(allcode)
+            for m in spec["modules"]:
+                if rnd.random() < 0.8:
+                    m["entry_point"] = shared
     cfg_nodes = [b["uuid"] for m in spec["modules"] for s in m["sections"]
                  for bi in s["intervals"] for b in bi["blocks"]
                  if b["kind"] == "code"] + \
@@ -373,6 +382,9 @@ def boundary_classes(spec):
                        for bi in s_["intervals"] for b in bi["blocks"]}
                 if n["entry_point"] not in own:
                     out.add("module:entry-in-other-module")
+                if sum(1 for o in spec["modules"]
+                       if o["entry_point"] == n["entry_point"]) > 1:
+                    out.add("module:entry-shared-between-modules")
             out.add("isa:" + n["isa"])
             out.add("format:" + n["file_format"])
             out.add("order:" + n["byte_order"])
